@@ -7,7 +7,7 @@ from sim.core import FAILED
 from sim.steps import LineBudget, BudgetExceeded
 
 ID = "C16"
-CASES = {"quick": 900, "thorough": 15000}
+CASES = {"quick": 1500, "thorough": 15000}
 RULE = ("seeded transducers (nondeterministic, several start/final states, epsilon-input moves incl. output-free "
         "epsilon cycles, start states with incoming and final states with outgoing transitions, operands "
         "sharing state names 'a','a0','a00', int-valued states) x value-hash schedule x PYTHONHASHSEED; "
